@@ -577,17 +577,20 @@ func (v *visitor) ConditionalNode(node *ast.ConditionalNode) reflect.Type {
 	t1 := v.visit(node.Exp1)
 	t2 := v.visit(node.Exp2)
 
-	if t1 == nil && t2 != nil {
-		return t2
-	}
-	if t1 != nil && t2 == nil {
-		return t1
-	}
 	if t1 == nil && t2 == nil {
 		return nilType
 	}
-	if t1.AssignableTo(t2) {
+	if t1 == nil || t2 == nil {
+		// One branch is nil: the value is the other branch's or nil.
+		return interfaceType
+	}
+	if t1 == t2 {
 		return t1
+	}
+	if t1.AssignableTo(t2) {
+		// The value may come from either branch: only the wider type
+		// describes both ('c ? 1 : dyn' is not an int).
+		return t2
 	}
 	return interfaceType
 }
